@@ -5,8 +5,8 @@
     [doctype_tokens], when entity names and notation names are distinct (first declaration binding, WF22) and
     every public identifier is in normalized form (WF17).
     [view_doctype_pd]: the whole document, for simple entity values (no markup in replacement text, D13), no
-    external subset (WF24), no declaration of a predefined entity name, on trees without the two attribute shapes
-    of Proofs/DomViewDtd.v ([attrs_okb]: D36 and the doubled namespace declaration). *)
+    external subset (WF24), no declaration of a predefined entity name, on trees without the attribute shape
+    of Proofs/DomViewDtd.v ([attrs_okb]: D36). *)
 From Coq Require Import List NArith Arith Lia Bool Permutation.
 From XmlRs Require Import Base.CPred Spec.XmlChars Model.Peg Gen.XmlcharGen Gen.GrammarXmlGen Model.ParseActions Model.Info Model.DomView
      Proofs.PegLemmas Proofs.PegInv Proofs.Expansion Proofs.PipelineTotal Proofs.DisplayLex Proofs.DisplayDoc Proofs.DisplayDtd
